@@ -61,6 +61,7 @@ def evaluate(spec, params, prop_ids, want_lockstep=True):
     fe["moves"] = sum(1 for (b1, s1), (b2, s2) in zip(snaps, snaps[1:]) if b2 == "allocated" and s1["placed"] != s2["placed"])
     fe["absence_steps"] = sum(1 for b, st in snaps if b == "absence" and st["time"] in params["absence"])
     fe["status"] = final["status"]
+    fe["used_object"] = bool(params.get("warmup"))
     fe["deps"] = sorted(set(d for tk in model["tasks"] for _, d in tk["inputs"]))
     fe["ind_absence"] = any(w["absence"] for w in model["workers"]) or any(f["absence"] for f in model["facs"])
     fe["contention"] = any(
@@ -80,6 +81,14 @@ def evaluate(spec, params, prop_ids, want_lockstep=True):
             f, _ = free_run(drv, model, params, pre, final)
             if f:
                 res["dis"].append(dict(phase="free-run", fields=f, time=None))
+    if "C05" in prop_ids and exc is None and final["status"] == 2:
+        # the real run did not complete: what does the reference semantics (the validated model) do
+        # from the same start?  (consulted by the liveness search of C05 only)
+        try:
+            _, ans = free_run(_drv(), model, params, pre, final)
+            run["model_final"] = dict(status=ans["status"], time=ans["time"])
+        except Exception as e:
+            run["model_final"] = dict(error=repr(e))
     for pid in prop_ids:
         fpred = preds.PREDS.get(pid)
         if fpred is None:
